@@ -23,7 +23,7 @@ LEVEL_RULE = (
 EXHAUSTIVE_SUBDOMAINS = ["every NL band 1..59 x hemisphere x newer parity (directed)"]
 ASSUMPTIONS = ["positions whose recovered latitude is within 1e-9 deg of an NL transition are ambiguous, not judged",
                "receiver latitude clamped to [-90,90]; equal timestamps accept either frame"]
-REQUIRED = ["value_result", "datetime_ts", "aware_datetime_ts", "no_ref_rejected", "rx_other_hemisphere", "rx_lat_zero", "rx_across_antimeridian",
+REQUIRED = ["value_result", "datetime_ts", "aware_datetime_ts", "dst_change_ts", "no_ref_rejected", "rx_other_hemisphere", "rx_lat_zero", "rx_across_antimeridian",
             "rx_across_greenwich", "newer_even", "newer_odd", "target_south", "target_west"] + \
            ["band%d" % nl for nl in range(1, 60)]
 
@@ -52,7 +52,15 @@ def m_surface(ctx, case):
             ctx.hit("premise_not_met_skipped")
             return
     fn = adsb.position if case["api"] == "position" else adsb.surface_position
-    if case.get("dt") == "aware":
+    if case.get("dt") == "dst":
+        # naive stamps straddling the end of the skipped hour / the repeated hour of a daylight-saving change, while the
+        # PROCESS runs in a zone that has one (WORKER_ENV sets TZ): naive datetimes are ordered by their wall-clock value
+        lo_ = datetime.datetime(2024, 3, 31, 2, 59, 59, 500000) if case["addr"] % 2 else datetime.datetime(2024, 10, 27, 2, 59, 59, 500000)
+        gap_ = abs(te - to) if te != to else 0
+        hi_ = lo_ + datetime.timedelta(seconds=min(gap_, 7200))
+        T0, T1 = (hi_, lo_) if te > to else (lo_, hi_) if to > te else (lo_, lo_)
+        ctx.hit("dst_change_ts")
+    elif case.get("dt") == "aware":
         # timezone-aware stamps with DIFFERENT offsets (two feeders): the absolute instant decides which frame is newer
         a_ = case["addr"] if isinstance(case["addr"], int) else 0
         z0 = datetime.timezone(datetime.timedelta(hours=(a_ % 25) - 12))
@@ -150,6 +158,12 @@ def m_noref(ctx, case):
     ctx.nontrivial(("nr", m0, m1))
 
 
+def WORKER_ENV():
+    # the workers run in a time zone WITH daylight saving (POSIX rule, no zone database needed): naive datetime stamps must
+    # keep their wall-clock order whatever zone the process lives in
+    return {"TZ": "CET-1CEST,M3.5.0,M10.5.0/3"}
+
+
 MONITORS = {"surface": m_surface, "noref": m_noref}
 
 
@@ -173,7 +187,7 @@ def mkcase(rng, lat, lon, order=None, rx=None):
     return {"p0": [lat, lon], "p1": [lat1, lon1], "rx": rx, "tc": [rng.choice((5, 6, 7, 8)), rng.choice((5, 6, 7, 8))],
             "mov": [rng.randrange(128), rng.randrange(128)], "trk": [rng.randrange(256), rng.randrange(256)],
             "tbit": [rng.randrange(2), rng.randrange(2)], "df": rng.choice((17, 17, 18)),
-            "ca": [rng.randrange(8), rng.randrange(8)], "addr": rng.fill(24), "te": te, "to": to, "dt": rng.choice((False,) * 16 + (True,) * 3 + ("aware",)),
+            "ca": [rng.randrange(8), rng.randrange(8)], "addr": rng.fill(24), "te": te, "to": to, "dt": rng.choice((False,) * 15 + (True,) * 3 + ("aware", "dst")),
             "api": rng.choice(("position", "surface_position")), "lower": rng.choice((0, 0, 0, 0, 0, 0, 0, 1, 2, 3))}
 
 
